@@ -238,8 +238,8 @@ def run_large(item):
     elif which == 'interleaved':
         hist = [G.seg([(F.A, ['FULL', 'Int32', n // 2]), (F.B, ['FULL', 'Int16', n // 2])], chunks=2, interleaved=True) for _ in range(4)]
     elif which == 'huge-interleaved':
-        # one interleaved segment of 2.4 MB (300 chunks x 1024 rows) followed by a small one: beyond 1 MiB / 2^18 values
-        hist = [G.seg([(F.A, ['FULL', 'Int32', 1024]), (F.B, ['FULL', 'Int32', 1024])], chunks=300, interleaved=True),
+        # one interleaved segment of 5.2 MB (640 chunks x 1024 rows) followed by a small one: beyond 4 MiB / 2^19 values
+        hist = [G.seg([(F.A, ['FULL', 'Int32', 1024]), (F.B, ['FULL', 'Int32', 1024])], chunks=640, interleaved=True),
                 G.seg([(F.A, ['FULL', 'Int32', 5]), (F.B, ['FULL', 'Int32', 5])], chunks=1, interleaved=True)]
     elif which == 'huge-contiguous':
         hist = [G.seg([(F.B, ['FULL', 'Int32', 1024]), (F.A, ['FULL', 'Int32', 1024])], chunks=300),
@@ -271,11 +271,11 @@ def run_large(item):
     bad = []
     try:
         for mode, ch in (('lazy', lazy['g']['a']), ('eager', eager['g']['a'])):
-            marks = sorted(set([2 ** k for k in range(8, 19)] + [n, 2 * n, 3 * n, L])) if huge else \
+            marks = sorted(set([2 ** k for k in range(8, 20)] + [n, 2 * n, 3 * n, L])) if huge else \
                 sorted(set([2 ** k for k in range(8, 17)] + [n, 2 * n, 3 * n, L]))
             marks = [b for b in marks if b <= L]
-            for start in ((None, 131071, 262145, -5) if huge else (None, 1, 16383, 16385, 40000, -5)):
-                for stop in ((None, 262144, L - 1) if huge else (None, 16384, 65537, L - 1, -16385)):
+            for start in ((None, 10, 131071, 262145, -5) if huge else (None, 1, 16383, 16385, 40000, -5)):
+                for stop in ((None, 262144, 550010, L - 1) if huge else (None, 16384, 65537, L - 1, -16385)):
                     for step in ((1, 3, 1000, 65537, -1, -7) if huge else (2, 3, 5, 7, 1000, 4096, 16384, 16385, -1, -2, -3, -7, -1000, -16385)):
                         res['counters']['ops'] += 1
                         exp = base[start:stop:step]
